@@ -56,6 +56,8 @@ type Contract struct {
 	File     string
 	Line     int
 	Uses     []Clause // "assert"/"use" hints (checked then assumed) at entry
+	NoAuto   bool
+	autoApplied bool
 }
 
 func (c *Contract) HasProfile(p string) bool {
@@ -267,6 +269,8 @@ func applyDirective(c *Contract, t string, line int) error {
 		c.MayPanic = true
 	case "nopanic":
 		c.MayPanic = false
+	case "noauto":
+		c.NoAuto = true
 	case "ghostneutral":
 		c.Ghost = true
 	default:
